@@ -2,3 +2,6 @@ import DfModel.Basic
 import DfModel.Matcher
 import DfModel.Steps
 import DfModel.Validate
+import DfModel.Engine
+import DfModel.Link
+import DfModel.DriverLogic
